@@ -5,7 +5,7 @@ PLAN = dict(
           "DumpExchangeHeaders, ComputeHeaderIntegrity, DumpSignedMessage, the Signature header and Write output are compared byte for byte with refsxg "
           "(with real ECDSA the sig parameter is verified by crypto/ecdsa over the REFERENCE message, SHA-256 for P-256 / SHA-384 for P-384). "
           "reverse: a file assembled entirely by refsxg and signed with ecdsa.SignASN1 must be accepted by ReadExchange + Verify and return the payload. "
-          "Non-trivial: header CBOR >= 256 bytes or >= 24 headers (forward); every reverse case."),
+          "signer-reuse: one Signer object signs exchange A, is re-pointed at another certificate for the same key with other dates / URLs, then signs exchange B, whose bytes must be the specification's for the signer's current fields. Non-trivial: header CBOR >= 256 bytes or >= 24 headers (forward); every reverse case."),
     assumptions=TRUSTED + ["the Digest / MI-Draft2 header value is taken from the library's MI encoder (its conformance is property C14)",
                            "signers have at least one certificate"],
     technique="rapid-generated exchanges, differential against an independent re-implementation of the signed-exchange spec, in both directions",
@@ -15,6 +15,7 @@ PLAN = dict(
     level_note=NOTE_BASE,
     runs=[
         dict(name="forward", run="^(TestPropForward|TestCorpus)$", checks=(1500, 150000), shards=(1, 16), timeout=(300, 3600)),
+        dict(name="reuse", run="^TestPropSignerReuse$", checks=(400, 20000), shards=(1, 8), timeout=(300, 3600)),
         dict(name="reverse", run="^TestPropReverse$", checks=(800, 75000), shards=(1, 16), timeout=(300, 3600)),
     ],
     require=[("forward", "headers>=256B"), ("forward", ">=24-headers"), ("forward", "headers>=64KiB"), ("forward", "extreme-date"), ("forward", "1b1"), ("reverse", "1b1")],
